@@ -3,6 +3,8 @@ package index
 import (
 	"encoding/json"
 	"os"
+
+	"github.com/ipld/go-storethehash/store/vhook"
 )
 
 // Header contains information about the index. This is actually stored in a
@@ -50,5 +52,6 @@ func writeHeader(headerPath string, header Header) error {
 		return err
 	}
 
+	vhook.At("index.writeheader.before")
 	return os.WriteFile(headerPath, data, 0o666)
 }
